@@ -5,6 +5,7 @@
 -/
 import PsVerif.Model.Validation
 import PsVerif.Model.Sspoc
+import PsVerif.Model.GuardSpecs
 namespace PsVerif
 
 /-- a count is acceptable to SSPOR iff it is a (builtin or numpy) integer that is positive -/
@@ -187,5 +188,42 @@ theorem box_contradictory (n : Nat) (hn : 0 < n) (xmin xmax ymin ymax : Rat) (nx
   · simp [h]
   · simp only [h, if_true]
     split <;> rfl
+
+/-! ### links between the guard functions that the generated trees are proved equal to (Generated/Guards.lean, one
+theorem per entry point, regenerated from the source on every run) and the state machines of the other properties -/
+
+/-- the SSPOR machine's setter rejects exactly what `ssporSetNGuard` rejects, with the same error, and a rejected call
+leaves the state unchanged -/
+theorem sspor_setter_is_its_guard (st : Sspor) (v : PyArg) :
+    (st.setN v.toCount).2 =
+      (match ssporSetNGuard st.ranking.isSome (st.ranking.getD []).length v with
+        | .ok => none | .raises e => some e) ∧
+    ((st.setN v.toCount).2.isSome → (st.setN v.toCount).1 = st) :=
+  sspor_setN_guard st v
+
+/-- the SSPOR constructor accepts exactly what `ssporCtorGuard` accepts -/
+theorem sspor_ctor_is_its_guard (b : BasisSt) (v : PyArg) :
+    (Sspor.init b (match v with | .none => none | _ => some v.toCount)).isSome = (ssporCtorGuard v == .ok) :=
+  sspor_init_guard b v
+
+/-- the SSPOC machine's `update_sensors` rejects exactly what `sspocUpdateSensorsGuard` rejects -/
+theorem sspoc_update_sensors_is_its_guard (st : Sspoc) (v : PyArg) (thr : Option Rat) (xy : Bool) (mag : List Rat) :
+    (st.updateSensors (match v with | .none => none | _ => some v.toCount) thr xy mag none).2 =
+      (match sspocUpdateSensorsGuard st.fitted v thr.isNone st.nFeat with
+        | .ok => none | .raises e => some e) :=
+  sspoc_updateSensors_guard st v thr xy mag
+
+/-- the box guard of the model is the guard the generated tree is proved equal to -/
+theorem box_guard_is_its_tree_spec (n : Nat) (ints : Bool) (xmin xmax ymin ymax : Rat) (nxInt nyInt : Bool) :
+    boxGuard n ints xmin xmax ymin ymax nxInt nyInt =
+      boxGuardB n ints (decide (xmin ≥ xmax)) (decide (ymin ≥ ymax)) nxInt nyInt :=
+  boxGuard_eq n ints xmin xmax ymin ymax nxInt nyInt
+
+/-- a tree never gets stuck on the environments it is specified for … stated for the one entry point where the code
+compares before it tests the type (`n_sensors <= 0` is evaluated only after `isinstance`): the setter's tree on a
+float argument raises ValueError, it does not reach the comparison -/
+example (env : GEnv) (h : env.var "n_sensors" = .float false) (hf : env.flag "self.ranked_sensors_" = true) :
+    Spec_ssporSetN env = .raises .valueError := by
+  simp [Spec_ssporSetN, ssporSetNGuard, hf, h, PyArg.toCount, Outcome.toG]
 
 end PsVerif
